@@ -77,6 +77,9 @@ struct Inner {
 	poll_streak: usize,
 	panics: Vec<(usize, String)>,
 	last_progress: Instant,
+	/// fair scheduling: a thread that yielded (poll) is not scheduled again before every thread
+	/// that was enabled at that moment has taken a step (or is no longer enabled)
+	wait_for: Vec<BTreeSet<usize>>,
 }
 
 pub struct Scheduler {
@@ -125,7 +128,13 @@ impl Inner {
 				}
 			}
 		}
-		// fairness: a thread inside a polling loop yields to every thread that can make progress
+		// fairness (1): a thread that yielded waits for the threads that were enabled then
+		let raw = v.clone();
+		v.retain(|t| !self.wait_for.get(*t).map(|w| w.iter().any(|u| raw.contains(u))).unwrap_or(false));
+		if v.is_empty() {
+			v = raw;
+		}
+		// fairness (2): a thread inside a polling loop yields to every thread that can make progress
 		let is_poll = |t: &usize| matches!(self.threads[*t], St::Ready(Req::Poll(_)));
 		if v.iter().any(|t| !is_poll(t)) {
 			v.retain(|t| !is_poll(t));
@@ -182,6 +191,13 @@ impl Inner {
 				return;
 			}
 			let step = self.trace.len();
+			if step > 4000 {
+				// an execution of these harnesses has a few hundred points at most: thousands of
+				// steps mean the threads only ever wait for each other (polling loops)
+				let tail: Vec<String> = self.trace.iter().rev().take(14).map(|s| s.what.clone()).collect();
+				self.verdict = Some(Verdict::Livelock(format!("no thread finished within 4000 scheduling steps; last steps (newest first): {:?}", tail)));
+				return;
+			}
 			// canonical order: the thread that ran last first (no preemption), then ascending ids;
 			// polling threads last
 			let mut order: Vec<usize> = vec![];
@@ -213,7 +229,22 @@ impl Inner {
 				St::Ready(r) => r.clone(),
 				_ => unreachable!(),
 			};
+			for w in self.wait_for.iter_mut() {
+				w.remove(&t);
+			}
 			if matches!(req, Req::Poll(_)) {
+				// everything that could run now goes first next time
+				let others: BTreeSet<usize> = self
+					.threads
+					.iter()
+					.enumerate()
+					.filter(|(u, st)| *u != t && matches!(st, St::Ready(_)))
+					.map(|(u, _)| u)
+					.collect();
+				while self.wait_for.len() <= t {
+					self.wait_for.push(BTreeSet::new());
+				}
+				self.wait_for[t] = others;
 				self.poll_streak += 1;
 				if self.poll_streak > 200 {
 					self.verdict = Some(Verdict::Livelock(format!("only polling threads made steps for 200 rounds (last: {})", self.names[t])));
@@ -291,6 +322,7 @@ impl Scheduler {
 				poll_streak: 0,
 				panics: vec![],
 				last_progress: Instant::now(),
+				wait_for: vec![BTreeSet::new(); names.len()],
 			}),
 			cv: Condvar::new(),
 		})
@@ -468,6 +500,7 @@ impl Sched for Scheduler {
 		let mut g = self.inner.lock().unwrap();
 		g.threads.push(St::Ready(Req::Start));
 		g.names.push(name.to_string());
+		g.wait_for.push(BTreeSet::new());
 		Some(g.threads.len() - 1)
 	}
 	fn thread_begin(&self, ticket: usize) {
